@@ -312,7 +312,11 @@ def rotations(c, rebound, exe):
         if not (lf > 1e-150 and lt_ > 1e-150 and lf < 1e150 and lt_ < 1e150):
             continue
         nq = float(sum(Fr(x) ** 2 for x in qv)) if all(x == x for x in qv) else float("nan")
-        key = "F7:from_to-antiparallel" if cls == "antiparallel-exact" else "from_to:" + cls
+        # input class of F7: directions antiparallel to within a few ulp (measured exactly)
+        ff, tt = fr3(f), fr3(t)
+        cr2 = sum(x * x for x in fcross(ff, tt))
+        antip = fdot(ff, tt) < 0 and cr2 <= Fr(1, 10 ** 30) * fdot(ff, ff) * fdot(tt, tt)
+        key = "F7:from_to-antiparallel" if antip else "from_to:" + cls
         bad = None
         if not abs(nq - 1) <= 1e-13:
             bad = "from_to rotation is not unit: |q|^2 = %r" % nq
@@ -386,8 +390,8 @@ def rotations(c, rebound, exe):
         if kind == 2:
             nz = [0.0, 0.0, -1.0]; nx = [-1.0, 0.0, 0.0]
         q = F["rotation_init_to_new_axes"](V(*nz), V(*nx))
-        lines.append("newaxes " + hv(*nz, *nx)); expect.append(" ".join(d2h(x) for x in ql(q))); meta.append(("newaxes", "newaxes"))
-        lines.append("newaxesfixed " + hv(*nz, *nx)); expect.append(" ".join(d2h(x) for x in ql(q))); meta.append(("newaxesfixed", "newaxes"))
+        for vv in ("00", "10", "01", "11"):
+            lines.append("newaxes" + vv + " " + hv(*nz, *nx)); expect.append(" ".join(d2h(x) for x in ql(q))); meta.append(("newaxes" + vv, "newaxes"))
         c.count(("new_axes", i % 40))
         lz = math.sqrt(sum(x * x for x in nz))
         zn = [x / lz for x in nz]
@@ -404,7 +408,10 @@ def rotations(c, rebound, exe):
             note("new_axes_maps", e / cond)
             note("new_axes_norm", abs(nq - 1))
             if not abs(nq - 1) <= 1e-13 or not e <= 1e-13 * cond:
-                fails.append(("new-axes", "to_new_axes does not map newz->z, newx->x / not unit", dict(newz=nz, newx=nx, q=ql(q), gz=gz, gx=gx)))
+                nonunit = abs(lz - 1) > 1e-12 and abs(dp) > 1e-12 * math.sqrt(sum(x * x for x in nx))
+                fails.append(("F18:to_new_axes-nonunit-newz" if nonunit else "new-axes",
+                              "to_new_axes does not map newz->z, newx->x / not unit (|newz| = %.3g, newx not perpendicular: %s)" % (lz, nonunit),
+                              dict(newz=nz, newx=nx, q=ql(q), gz=gz, gx=gx)))
         # slerp
         q1, q2 = runit(rng), runit(rng)
         if i % 4 == 0:
@@ -425,8 +432,10 @@ def rotations(c, rebound, exe):
     nbit = ndis = 0
     first = None
     per = {}
-    ft_match = {"fromto": [0, 0], "fromtofixed": [0, 0], "newaxes": [0, 0], "newaxesfixed": [0, 0]}
-    ft_bad = {"fromto": None, "fromtofixed": None, "newaxes": None, "newaxesfixed": None}
+    VAR = ["fromto", "fromtofixed", "newaxes00", "newaxes10", "newaxes01", "newaxes11"]
+    vbit = {}
+    ft_match = {k: [0, 0] for k in VAR}
+    ft_bad = {k: None for k in VAR}
     if len(got) != len(lines):
         c.corr_break("drv_c20 returned %d lines for %d ops" % (len(got), len(lines)))
         return
@@ -442,14 +451,14 @@ def rotations(c, rebound, exe):
             except Exception:
                 okk = False
         if tag in ft_match:
-            # the two model variants differ only in the exactly-antiparallel branch
+            # the model variants differ only in the exactly-antiparallel branch / the orthogonalisation
             ft_match[tag][0] += 1
             if okk or cls == "antiparallel-near":
                 ft_match[tag][1] += 1
             elif ft_bad[tag] is None:
                 ft_bad[tag] = dict(op_line=l, model=g, impl=e, cls=cls)
             if not same:
-                nbit += 1
+                vbit[tag] = vbit.get(tag, 0) + 1
             continue
         if not same:
             nbit += 1
@@ -457,15 +466,25 @@ def rotations(c, rebound, exe):
                 ndis += 1
                 if first is None:
                     first = dict(routine=tag, op_line=l, model=g, impl=e)
-    # which variant of the antiparallel branch does the compiled code implement?
-    asfound = ft_match["fromto"][0] == ft_match["fromto"][1] and ft_match["newaxes"][0] == ft_match["newaxes"][1]
-    fixed = ft_match["fromtofixed"][0] == ft_match["fromtofixed"][1] and ft_match["newaxesfixed"][0] == ft_match["newaxesfixed"][1]
-    variant = "as-found (axis not normalised, F7)" if asfound else ("repaired (fixes/F7.diff)" if fixed else "neither")
-    c.cov["from_to_model_variant_matching_the_code"] = variant
-    if not asfound and not fixed:
-        b = ft_bad["fromto"] or ft_bad["newaxes"]
-        c.corr_break("reb_rotation_init_from_to / to_new_axes agree with neither model variant (as found: %d/%d, repaired: %d/%d)"
-                     % (ft_match["fromto"][1], ft_match["fromto"][0], ft_match["fromtofixed"][1], ft_match["fromtofixed"][0]), b)
+    # which variant of the antiparallel branch / of the orthogonalisation does the compiled code implement?
+    full = lambda k: ft_match[k][0] == ft_match[k][1]
+    f7 = "0" if full("fromto") else ("1" if full("fromtofixed") else None)
+    f18 = None
+    if f7 is not None:
+        f18 = "0" if full("newaxes" + f7 + "0") else ("1" if full("newaxes" + f7 + "1") else None)
+    c.cov["from_to_model_variant_matching_the_code"] = {"0": "as found (antiparallel axis not normalised, F7)", "1": "repaired (fixes/F7.diff)", None: "neither"}[f7]
+    c.cov["to_new_axes_model_variant_matching_the_code"] = {"0": "as found (dot product with the un-normalised newz, F18)", "1": "repaired (fixes/F18.diff)", None: "neither"}[f18]
+    if f7 is not None:
+        nbit += vbit.get("fromto" if f7 == "0" else "fromtofixed", 0)
+        if f18 is not None:
+            nbit += vbit.get("newaxes" + f7 + f18, 0)
+    if f7 is None:
+        c.corr_break("reb_rotation_init_from_to agrees with neither model variant (as found: %d/%d, repaired: %d/%d)"
+                     % (ft_match["fromto"][1], ft_match["fromto"][0], ft_match["fromtofixed"][1], ft_match["fromtofixed"][0]), ft_bad["fromto"])
+    elif f18 is None:
+        c.corr_break("reb_rotation_init_to_new_axes agrees with neither model variant (as found: %d/%d, repaired: %d/%d)"
+                     % (ft_match["newaxes" + f7 + "0"][1], ft_match["newaxes" + f7 + "0"][0], ft_match["newaxes" + f7 + "1"][1], ft_match["newaxes" + f7 + "1"][0]),
+                     ft_bad["newaxes" + f7 + "0"])
     c.cov["rotation_model_lines"] = len(lines)
     c.cov["rotation_lines_per_routine"] = per
     c.cov["rotation_bitwise_mismatches_within_tolerance"] = nbit - ndis
@@ -557,11 +576,618 @@ def rotations(c, rebound, exe):
     c.cov["rotation_search_failures_by_key"] = {k: sum(1 for f in fails if f[0] == k) for k in seen}
 
 
+
+# ----------------------------------------------------------------------------- frame shifts
+class T2:
+    """exact arithmetic in Q[ea, eb]/(ea^2, eb^2): coefficient `ca` of f(x + ea dx) is the
+    derivative along dx, `cab` of f(x + ea xa + eb xb + ea eb xab) the mixed second derivative.
+    Independent of REBOUND's hand-derived variational formulas."""
+    __slots__ = ("c0", "ca", "cb", "cab")
+
+    def __init__(self, c0=0, ca=0, cb=0, cab=0):
+        self.c0, self.ca, self.cb, self.cab = Fr(c0), Fr(ca), Fr(cb), Fr(cab)
+
+    def __add__(self, o):
+        return T2(self.c0 + o.c0, self.ca + o.ca, self.cb + o.cb, self.cab + o.cab)
+
+    def __sub__(self, o):
+        return T2(self.c0 - o.c0, self.ca - o.ca, self.cb - o.cb, self.cab - o.cab)
+
+    def __mul__(self, o):
+        return T2(self.c0 * o.c0, self.c0 * o.ca + self.ca * o.c0, self.c0 * o.cb + self.cb * o.c0,
+                  self.c0 * o.cab + self.ca * o.cb + self.cb * o.ca + self.cab * o.c0)
+
+    def inv(self):
+        # solved from (self * y = 1) coefficient by coefficient
+        y0 = 1 / self.c0
+        ya = -self.ca * y0 * y0
+        yb = -self.cb * y0 * y0
+        yab = -(self.cab * y0 + self.ca * yb + self.cb * ya) * y0
+        return T2(y0, ya, yb, yab)
+
+    def __truediv__(self, o):
+        return self * o.inv()
+
+
+COMPS6 = ["x", "y", "z", "vx", "vy", "vz"]
+
+
+def frame(c, rebound, exe):
+    clib = rebound.clibrebound
+    P = rebound.Particle
+    clib.reb_simulation_com.restype = P
+    clib.reb_simulation_iadd.restype = ctypes.c_int
+    clib.reb_simulation_isub.restype = ctypes.c_int
+    rng = c.rng.fork()
+    lines, expect, meta = [], [], []
+    fails = []
+    worst = {}
+    hist = {}
+
+    def note(k, v):
+        worst[k] = max(worst.get(k, 0.0), v)
+
+    def add(line, exp, tag):
+        lines.append(line); expect.append(" ".join(d2h(x) for x in exp)); meta.append(tag)
+
+    def mass(rng, kind):
+        if kind == 0:
+            return rng.loguniform(1e-6, 1e3)
+        if kind == 1:
+            return 0.0 if rng.chance(0.4) else rng.uniform(0.1, 2)
+        if kind == 2:
+            return rng.uniform(0.5, 1.5)
+        return rng.choice([1e-12, 1e-3, 1.0, 10.0])
+
+    def make_sim(rng, nvar_cfg):
+        sim = rebound.Simulation()
+        N = rng.choice([1, 2, 2, 3, 3, 4, 5, 8, 13])
+        kind = rng.randint(0, 3)
+        off = rng.normal() * rng.choice([0, 1, 100])
+        for i in range(N):
+            m = mass(rng, kind)
+            if i == 0 and rng.chance(0.15):
+                m = 0.0           # leading massless particle: exercises the `m > 0` guard
+            sim.add(m=m, x=off + rng.normal(), y=rng.normal(), z=off * 0.5 + rng.normal(),
+                    vx=rng.normal(), vy=off + rng.normal(), vz=rng.normal())
+        if all(p.m == 0 for p in sim.particles) and rng.chance(0.7):
+            sim.particles[N - 1].m = 1.0
+        cfgs = []
+        firsts = []
+        for v in range(nvar_cfg):
+            k = rng.randint(0, 3)
+            if k <= 1 or not firsts:
+                var = sim.add_variation()
+                firsts.append(var)
+                cfgs.append(("1", var))
+            elif k == 2:
+                a = rng.choice(firsts)
+                b = rng.choice(firsts) if rng.chance(0.7) else None
+                var = sim.add_variation(order=2, first_order=a, first_order_2=b)
+                cfgs.append(("2", var))
+            else:
+                var = sim.add_variation(testparticle=rng.randint(0, N - 1))
+                cfgs.append(("t", var))
+        # variational particles: arbitrary data, including masses (a mass variation)
+        for i in range(N, sim.N):
+            p = sim.particles[i]
+            p.m = rng.normal() * rng.choice([0.0, 0.1, 1.0])
+            for k in COMPS6:
+                setattr(p, k, rng.normal())
+        return sim, N, cfgs
+
+    def snapshot(sim):
+        return [[p.m] + [getattr(p, k) for k in COMPS6] for p in sim.particles]
+
+    nsim = 1500 if c.thorough else 250
+    untouched_hel = 0
+    for case in range(nsim):
+        r = rng.fork()
+        nv = r.choice([0, 0, 1, 2, 3, 4])
+        sim, N, cfgs = make_sim(r, nv)
+        pre = snapshot(sim)
+        ncfg = sim.N_var_config
+        vc = [(sim.var_config[v].order, sim.var_config[v].index, sim.var_config[v].testparticle,
+               sim.var_config[v].index_1st_order_a, sim.var_config[v].index_1st_order_b) for v in range(ncfg)]
+        comp = clib.reb_simulation_com(ctypes.byref(sim))
+        M = comp.m
+        hist["N=%d,cfgs=%d" % (min(N, 8), ncfg)] = hist.get("N=%d,cfgs=%d" % (min(N, 8), ncfg), 0) + 1
+        # ---- exact oracle for the centre of mass and its derivatives
+        ms = [Fr(pre[i][0]) for i in range(N)]
+        Mx = sum(ms)
+        # ---------------- move_to_com
+        sim2 = sim.copy()
+        clib.reb_simulation_move_to_com(ctypes.byref(sim2))
+        post = snapshot(sim2)
+        for ci, k in enumerate(COMPS6):
+            col = 1 + ci
+            add("com " + " ".join(hv(pre[i][0], pre[i][col]) for i in range(N)), [M, getattr(comp, k)], ("com", k, N))
+            add("tocom " + " ".join(hv(pre[i][0], pre[i][col]) for i in range(N)), [post[i][col] for i in range(N)], ("move_to_com", k, N))
+            for (order, index, tp, ia, ib) in vc:
+                if tp >= 0:
+                    # test-particle variations are not shifted
+                    if d2h(post[index][col]) != d2h(pre[index][col]):
+                        fails.append(("com-testparticle-var", "move_to_com changed a test-particle variation", dict(pre=pre, post=post, index=index)))
+                    continue
+                if order == 1:
+                    toks = []
+                    for i in range(N):
+                        toks += [pre[i][0], pre[i][col], pre[i + index][0], pre[i + index][col]]
+                    add("var1 " + hv(M, *toks), [post[i + index][col] for i in range(N)], ("move_to_com_var1", k, N))
+                else:
+                    toks = []
+                    for i in range(N):
+                        toks += [pre[i][0], pre[i][col], pre[i + ia][0], pre[i + ia][col], pre[i + ib][0], pre[i + ib][col],
+                                 pre[i + index][0], pre[i + index][col]]
+                    add("var2 " + hv(M, *toks), [post[i + index][col] for i in range(N)], ("move_to_com_var2", k, N))
+            # ---- search on the real code
+            xs = [Fr(pre[i][col]) for i in range(N)]
+            scale = max([abs(pre[i][col]) for i in range(sim.N)] + [1.0])
+            if Mx > 0:
+                X = sum(m * x for m, x in zip(ms, xs)) / Mx
+                e = max(abs(float(Fr(post[i][col]) - (xs[i] - X))) for i in range(N)) / scale
+                note("move_to_com_vs_exact", e)
+                resid = abs(float(sum(m * Fr(post[i][col]) for i, m in enumerate(ms)) / Mx)) / scale
+                note("com_after_move", resid)
+                if not e <= 1e-13 or not resid <= 1e-13:
+                    fails.append(("move-to-com", "after move_to_com the centre of mass is not at rest at the origin / particles not shifted by it",
+                                  dict(component=k, m=[pre[i][0] for i in range(N)], x=[pre[i][col] for i in range(N)], got=[post[i][col] for i in range(N)], err=e, resid=resid)))
+                # variational particles: exact truncated-polynomial arithmetic
+                for (order, index, tp, ia, ib) in vc:
+                    if tp >= 0:
+                        continue
+                    if order == 1:
+                        mt = [T2(pre[i][0], pre[i + index][0]) for i in range(N)]
+                        xt = [T2(pre[i][col], pre[i + index][col]) for i in range(N)]
+                    else:
+                        mt = [T2(pre[i][0], pre[i + ia][0], pre[i + ib][0], pre[i + index][0]) for i in range(N)]
+                        xt = [T2(pre[i][col], pre[i + ia][col], pre[i + ib][col], pre[i + index][col]) for i in range(N)]
+                    S = T2()
+                    Mt = T2()
+                    for a_, b_ in zip(mt, xt):
+                        S = S + a_ * b_
+                        Mt = Mt + a_
+                    Xt = S / Mt
+                    want = [(xt[i] - Xt) for i in range(N)]
+                    wv = [float(w.ca if order == 1 else w.cab) for w in want]
+                    mag = max([abs(w) for w in wv] + [scale]) * max(1.0, float(sum(abs(Fr(pre[i + index][0])) for i in range(N)) / Mx)) ** 2 \
+                        * max(1.0, float(sum(abs(m) for m in ms) / Mx))
+                    e = max(abs(post[i + index][col] - wv[i]) for i in range(N)) / mag
+                    note("move_to_com_var%d_vs_exact_derivative" % order, e)
+                    if not e <= 1e-11:
+                        fails.append(("move-to-com-var%d" % order, "order-%d variational particles are not the derivative of the shifted coordinates" % order,
+                                      dict(component=k, order=order, index=index, ia=ia, ib=ib, N=N, pre=pre, got=[post[i + index][col] for i in range(N)], want=wv)))
+            else:
+                # total mass zero: com is (0,0), nothing moves
+                if any(d2h(post[i][col]) != d2h(pre[i][col] - 0.0) for i in range(N)):
+                    fails.append(("move-to-com-massless", "move_to_com moved a system without mass", dict(pre=pre, post=post)))
+            # pairwise differences unchanged to rounding
+            if N >= 2:
+                dmax = 0.0
+                for i in range(1, N):
+                    d0 = Fr(pre[i][col]) - Fr(pre[0][col])
+                    d1 = Fr(post[i][col]) - Fr(post[0][col])
+                    dmax = max(dmax, abs(float(d1 - d0)) / scale)
+                note("move_to_com_pair_differences", dmax)
+                if not dmax <= 1e-14:
+                    fails.append(("move-to-com-diff", "move_to_com changes relative coordinates", dict(component=k, pre=[pre[i][col] for i in range(N)], post=[post[i][col] for i in range(N)])))
+        if any(post[i][0] != pre[i][0] for i in range(sim.N)):
+            fails.append(("move-to-com-mass", "move_to_com changed a mass", dict(pre=pre, post=post)))
+        c.count(("move_to_com", N, tuple(o for o, *_ in vc), case % 4), nontrivial=N >= 2)
+        # ---------------- move_to_hel
+        sim3 = sim.copy()
+        clib.reb_simulation_move_to_hel(ctypes.byref(sim3))
+        posth = snapshot(sim3)
+        for ci, k in enumerate(COMPS6):
+            col = 1 + ci
+            add("tohel " + " ".join(hv(pre[i][0], pre[i][col]) for i in range(N)), [posth[i][col] for i in range(N)], ("move_to_hel", k, N))
+            if posth[0][col] != 0.0 or any(Fr(posth[i][col]) != Fr(pre[i][col] - pre[0][col]) for i in range(1, N)):
+                fails.append(("move-to-hel", "move_to_hel: particle 0 not at the origin / others not relative to it", dict(component=k, pre=[pre[i][col] for i in range(N)], post=[posth[i][col] for i in range(N)])))
+        if all(posth[i] == pre[i] for i in range(N, sim.N)):
+            untouched_hel += 1 if sim.N > N else 0
+        else:
+            c.cov["move_to_hel_touches_variational_particles"] = True
+        c.count(("move_to_hel", N, case % 4), nontrivial=N >= 2)
+        # ---------------- imul / iadd / isub on all N particles (real + variational)
+        other, _, _ = make_sim(r, 0) if r.chance(0.2) else (None, None, None)
+        simb = sim.copy()
+        for i in range(simb.N):
+            for k in COMPS6:
+                setattr(simb.particles[i], k, r.normal())
+        if other is not None and other.N != sim.N:
+            simb = other
+        preb = snapshot(simb)
+        sa = sim.copy()
+        rc = clib.reb_simulation_iadd(ctypes.byref(sa), ctypes.byref(simb))
+        pa = snapshot(sa)
+        ss = sim.copy()
+        rc2 = clib.reb_simulation_isub(ctypes.byref(ss), ctypes.byref(simb))
+        psub = snapshot(ss)
+        for ci, k in enumerate(COMPS6):
+            col = 1 + ci
+            xs = [pre[i][col] for i in range(sim.N)]
+            ys = [preb[i][col] for i in range(simb.N)]
+            exp = ("ok " + " ".join(d2h(pa[i][col]) for i in range(sim.N))) if rc == 0 else "err -1"
+            lines.append("iadd %d %s" % (sim.N, hv(*xs, *ys))); expect.append(exp); meta.append(("iadd", k, sim.N))
+            exp = ("ok " + " ".join(d2h(psub[i][col]) for i in range(sim.N))) if rc2 == 0 else "err -1"
+            lines.append("isub %d %s" % (sim.N, hv(*xs, *ys))); expect.append(exp); meta.append(("isub", k, sim.N))
+        if (rc == -1) != (sim.N != simb.N) or (rc2 == -1) != (sim.N != simb.N):
+            fails.append(("iadd-size", "iadd/isub size check wrong", dict(N=sim.N, N2=simb.N, rc=rc, rc2=rc2)))
+        if rc == -1 and pa != pre:
+            fails.append(("iadd-size", "rejected iadd modified the simulation", dict(N=sim.N, N2=simb.N)))
+        if rc == 0:
+            for i in range(sim.N):
+                for ci in range(6):
+                    if Fr(pa[i][1 + ci]) != Fr(pre[i][1 + ci] + preb[i][1 + ci]) or Fr(psub[i][1 + ci]) != Fr(pre[i][1 + ci] - preb[i][1 + ci]) \
+                            or pa[i][0] != pre[i][0]:
+                        fails.append(("iadd", "iadd/isub is not the component-wise sum/difference on particle %d" % i, dict(i=i, N=sim.N, N_var=sim.N_var)))
+                        break
+            # Python operators
+            try:
+                sp = sim + simb
+                sm = sim - simb
+                if snapshot(sp) != pa or snapshot(sm) != psub or snapshot(sim) != pre:
+                    fails.append(("py-add", "Simulation.__add__/__sub__ differ from iadd/isub or modify the operand", dict(N=sim.N)))
+            except Exception as ex:
+                fails.append(("py-add", "Simulation + Simulation raised %r" % (ex,), dict(N=sim.N)))
+        else:
+            try:
+                sim + simb
+                fails.append(("py-add", "Simulation + Simulation of different N did not raise", dict(N=sim.N, N2=simb.N)))
+            except RuntimeError:
+                pass
+        s1, s2 = r.normal() * 3, r.normal() * 3
+        sm_ = sim.copy()
+        clib.reb_simulation_imul(ctypes.byref(sm_), ctypes.c_double(s1), ctypes.c_double(s2))
+        pm = snapshot(sm_)
+        for ci, k in enumerate(COMPS6):
+            col = 1 + ci
+            add("imul " + hv(s1 if ci < 3 else s2, *[pre[i][col] for i in range(sim.N)]), [pm[i][col] for i in range(sim.N)], ("imul", k, sim.N))
+        for i in range(sim.N):
+            if pm[i][0] != pre[i][0] or any(pm[i][1 + ci] != pre[i][1 + ci] * (s1 if ci < 3 else s2) for ci in range(6)):
+                fails.append(("imul", "imul is not the component-wise scaling on particle %d" % i, dict(i=i, N=sim.N, N_var=sim.N_var, s1=s1, s2=s2)))
+                break
+        sq = sim * s1
+        sd = sim / s1
+        if snapshot(sq) != snapshot_scaled(pre, s1) or snapshot(sd) != snapshot_scaled(pre, 1. / s1):
+            fails.append(("py-mul", "Simulation * scalar or / scalar is not the scaling of all coordinates", dict(s=s1, N=sim.N)))
+        c.count(("imul/iadd/isub", sim.N, sim.N_var, case % 4))
+        if case < 3:
+            c.sample({"N_real": N, "var_configs": vc, "masses": [pre[i][0] for i in range(N)], "x": [pre[i][1] for i in range(N)]})
+
+    c.log("frame: %d model lines through drv_c20" % len(lines))
+    got = run_driver(exe, lines)
+    nbit = ndis = 0
+    first = None
+    per = {}
+    if len(got) != len(lines):
+        c.corr_break("drv_c20 returned %d lines for %d frame ops" % (len(got), len(lines)))
+        return
+    for g, e, mt, l in zip(got, expect, meta, lines):
+        per[mt[0]] = per.get(mt[0], 0) + 1
+        if g.split() == e.split():
+            continue
+        nbit += 1
+        try:
+            gt, et = g.split(), e.split()
+            if gt[0] in ("ok", "err") or et[0] in ("ok", "err"):
+                if gt[0] != et[0]:
+                    raise ValueError
+                gt, et = gt[1:], et[1:]
+            gv, ev = [h2d(x) for x in gt], [h2d(x) for x in et]
+            ins = [abs(h2d(x)) for x in l.split()[1:] if len(x) == 16]
+            sc = max([abs(x) for x in ev + gv + ins if x == x and abs(x) != float("inf")] + [1e-300])
+            bad = len(gv) != len(ev) or any(ulps(a, b, sc) > 64 * max(1, mt[2]) for a, b in zip(gv, ev))
+        except Exception:
+            bad = True
+        if bad:
+            ndis += 1
+            if first is None:
+                first = dict(routine=mt[0], component=mt[1], N=mt[2], op_line=l[:2000], model=g[:1000], impl=e[:1000])
+    c.cov["frame_model_lines"] = len(lines)
+    c.cov["frame_lines_per_routine"] = per
+    c.cov["frame_bitwise_mismatches_within_tolerance"] = nbit - ndis
+    c.cov["frame_disagreements"] = ndis
+    c.cov["frame_case_histogram"] = dict(sorted(hist.items()))
+    c.cov["frame_worst_errors_measured"] = {k: float("%.3g" % v) for k, v in sorted(worst.items())}
+    c.cov["move_to_hel_leaves_variational_particles_untouched_cases"] = untouched_hel
+    if ndis:
+        c.corr_break("%d frame model/implementation lines differ; first: %s" % (ndis, first["routine"]), first)
+    seen = set()
+    for key, what, rep in fails:
+        if key in seen:
+            continue
+        seen.add(key)
+        c.violation(key, what, rep)
+
+
+def snapshot_scaled(pre, s):
+    return [[row[0]] + [v * s for v in row[1:]] for row in pre]
+
+
+
+# ----------------------------------------------------------------------------- units
+def units(c, rebound, exe, parsed, ref):
+    import rebound.units as U
+    clib = rebound.clibrebound
+    rng = c.rng.fork()
+    T = parsed["tables"]
+    fails = []
+    worst = {}
+
+    def note(k, v):
+        worst[k] = max(worst.get(k, 0.0), v)
+
+    # ---- tie 1: the translator's reading of units.py is what the imported module holds
+    for tname, live in (("lengths_SI", U.lengths_SI), ("times_SI", U.times_SI), ("masses_SI", U.masses_SI)):
+        rows = T[tname]
+        if [k for k, *_ in rows] != list(live.keys()):
+            c.corr_break("translator and imported module disagree on the keys of %s" % tname,
+                         dict(translator=[k for k, *_ in rows], module=list(live.keys())))
+            continue
+        for k, ex, fv, txt in rows:
+            if d2h(fv) != d2h(live[k]):
+                c.corr_break("translator and imported module disagree on %s[%r]" % (tname, k), dict(translator=fv, module=live[k], text=txt))
+            c.count(("table", tname, k))
+    if parsed["G"][1] is None or d2h(parsed["G"][1]) != d2h(U.G_SI):
+        c.corr_break("translator and imported module disagree on G_SI", dict(translator=parsed["G"][1], module=U.G_SI))
+    Ls, Ts, Ms = dict(U.lengths_SI), dict(U.times_SI), dict(U.masses_SI)
+    triples = [(l, t, m) for l in Ls for t in Ts for m in Ms]
+    allnames = list(Ls) + list(Ts) + list(Ms)
+    c.cov["unit_triples"] = len(triples)
+    c.cov["unit_counts"] = {"lengths": len(Ls), "times": len(Ts), "masses": len(Ms)}
+
+    # ---- tie 2: Float model of the conversion formulas vs rebound.units (CPython `**` is libm pow: ≤ 4 ulp)
+    lines, expect, meta = [], [], []
+    for (l, t, m) in triples:
+        lines.append("cg " + hv(U.G_SI, Ls[l], Ts[t], Ms[m])); expect.append(d2h(U.convert_G((l, t, m)))); meta.append(("convert_G", (l, t, m)))
+    npair = 4000 if c.thorough else 800
+    for i in range(npair):
+        a, b = rng.choice(triples), rng.choice(triples)
+        x = rng.normal() * rng.loguniform(1e-6, 1e6)
+        lines.append("cmass " + hv(x, Ms[a[2]], Ms[b[2]])); expect.append(d2h(U.convert_mass(x, a[2], b[2]))); meta.append(("convert_mass", (a, b)))
+        lines.append("clen " + hv(x, Ls[a[0]], Ls[b[0]])); expect.append(d2h(U.convert_length(x, a[0], b[0]))); meta.append(("convert_length", (a, b)))
+        lines.append("cvel " + hv(x, Ls[a[0]], Ts[a[1]], Ls[b[0]], Ts[b[1]])); expect.append(d2h(U.convert_vel(x, a[0], a[1], b[0], b[1]))); meta.append(("convert_vel", (a, b)))
+        lines.append("cacc " + hv(x, Ls[a[0]], Ts[a[1]], Ls[b[0]], Ts[b[1]])); expect.append(d2h(U.convert_acc(x, a[0], a[1], b[0], b[1]))); meta.append(("convert_acc", (a, b)))
+    got = run_driver(exe, lines)
+    nbit = ndis = 0
+    first = None
+    for g, e, mt, l in zip(got, expect, meta, lines):
+        if g.strip() == e:
+            continue
+        nbit += 1
+        gv, ev = h2d(g.strip()), h2d(e)
+        if not ulps(gv, ev, abs(ev)) <= 16:
+            ndis += 1
+            first = first or dict(function=mt[0], units=mt[1], op_line=l, model=g, impl=e)
+    c.cov["units_model_lines"] = len(lines)
+    c.cov["units_bitwise_mismatches_within_tolerance"] = nbit - ndis
+    c.cov["units_disagreements"] = ndis
+    if len(got) != len(lines) or ndis:
+        c.corr_break("%d unit-conversion model/implementation lines differ; first: %s" % (ndis, first and first["function"]), first)
+
+    # ---- search 1: hash_to_unit(hash(u)) = u for every name; unknown / incomplete triples rejected
+    clib.reb_hash.restype = ctypes.c_uint32
+    for u in allnames:
+        h = clib.reb_hash(ctypes.c_char_p(u.encode("ascii")))
+        back = U.hash_to_unit(h)
+        c.count(("hash", u))
+        if back != u or h == 0:
+            fails.append(("hash-to-unit", "hash_to_unit(reb_hash(%r)) = %r" % (u, back), dict(unit=u, hash=h, back=back)))
+    for bad in (("au", "yr"), ("au", "yr", "furlong"), ("au", "au", "yr"), ("kg", "msun", "yr")):
+        try:
+            U.check_units(bad)
+            fails.append(("check-units", "check_units accepted %r" % (bad,), dict(units=bad)))
+        except Exception:
+            pass
+
+    # ---- search 2: exhaustive over all triples — setter -> G, read-back, convert there and back, period
+    exactL = {k: Fr(v) for k, v in Ls.items()}
+    exactT = {k: Fr(v) for k, v in Ts.items()}
+    exactM = {k: Fr(v) for k, v in Ms.items()}
+    Gq = Fr(U.G_SI)
+    # reference (independent) values for a physical plausibility check of G in every triple
+    refL = {k: v for k, v in ref["lengths"].items()}
+    refT = {k: v for k, v in ref["times"].items()}
+
+    eg = abs(float((Gq - ref["G"][0]) / ref["G"][0]))
+    note("G_SI_vs_CODATA/tolerance", eg / float(ref["G"][1]))
+    if not eg <= float(ref["G"][1]):
+        fails.append(("units-value:G_SI", "G_SI = %r disagrees with CODATA (%.3g relative)" % (U.G_SI, eg), dict(G_SI=U.G_SI, rel=eg)))
+    for g in ref["alias_groups"]:
+        vals = {u: (Ls.get(u) or Ts.get(u) or Ms.get(u)) for u in g}
+        if len(set(vals.values())) != 1:
+            fails.append(("units-alias:" + g[0], "aliases %r have different values %r" % (g, vals), dict(values=vals)))
+    if len(set(allnames)) != len(allnames):
+        fails.append(("units-names", "a unit name occurs in two tables", dict(names=allnames)))
+    # SI description of a two-body system (independent of any unit table)
+    m1_SI, m2_SI, a_SI = Fr("1.7e30"), Fr("3.1e27"), Fr("2.3e11")
+    Pw = 2 * math.pi * math.sqrt(float(a_SI) ** 3 / (float(Gq) * float(m1_SI + m2_SI)))
+    order = list(range(len(triples)))
+    perm = list(order)
+    rng.shuffle(perm)
+    fields = ["m", "x", "y", "z", "r", "vx", "vy", "vz", "ax", "ay", "az"]
+    dims = {"m": (0, 0, 1), "x": (1, 0, 0), "y": (1, 0, 0), "z": (1, 0, 0), "r": (1, 0, 0),
+            "vx": (1, -1, 0), "vy": (1, -1, 0), "vz": (1, -1, 0), "ax": (1, -2, 0), "ay": (1, -2, 0), "az": (1, -2, 0)}
+    ntarget = 3 if c.thorough else 1
+    for idx, (l, t, m) in enumerate(triples):
+        sim = rebound.Simulation()
+        spell = [l, t, m]
+        rng.shuffle(spell)
+        if idx % 3 == 0:
+            spell = [s_.upper() if rng.chance(0.5) else s_.capitalize() for s_ in spell]
+        try:
+            sim.units = tuple(spell)
+        except Exception as ex:
+            fails.append(("units-setter", "sim.units = %r raised %r" % (spell, ex), dict(units=spell)))
+            continue
+        c.count(("triple", l, t, m))
+        Gx = Gq * exactM[m] * exactT[t] ** 2 / exactL[l] ** 3
+        e = abs(float((Fr(sim.G) - Gx) / Gx))
+        note("G_vs_exact_formula", e)
+        if not e <= 1e-15 * 4:
+            fails.append(("units-G", "sim.G for units %r is not G_SI*M*T^2/L^3" % ((l, t, m),), dict(units=(l, t, m), G=sim.G, want=float(Gx))))
+        # physical value from the independent reference.  G/G_SI = M T^2/L^3 involves only the unit
+        # values (for the GM-defined masses M = GM/G_SI with the module's own G_SI), so the tolerance is
+        # that of the units alone and a wrong constant for one unit shows up in every triple that uses it
+        if l in refL and t in refT and (m in ref["masses"] or m in ref["GM"]):
+            if m in ref["masses"]:
+                rm, rmt = ref["masses"][m]
+            else:
+                rm, rmt = ref["GM"][m][0] / Gq, ref["GM"][m][1]
+            Kr = rm * refT[t][0] ** 2 / refL[l][0] ** 3
+            tol = float(rmt + 2 * refT[t][1] + 3 * refL[l][1]) + 1e-14
+            e = abs(float((Fr(sim.G) / Gq - Kr) / Kr))
+            note("G_over_GSI_vs_reference/tolerance", e / tol)
+            if not e <= tol:
+                culprit = [u for u, tab, rf in ((l, Ls, refL), (t, Ts, refT)) if abs(float((Fr(tab[u]) - rf[u][0]) / rf[u][0])) > float(rf[u][1]) + 1e-15]
+                fails.append(("units-value:" + (culprit[0] if culprit else m),
+                              "sim.G for units %r disagrees with the reference constants by %.3g (tolerance %.3g): wrong value for %s" % ((l, t, m), e, tol, culprit or [m]),
+                              dict(units=(l, t, m), G=sim.G, G_over_GSI_reference=float(Kr), rel=e, tol=tol)))
+        back = sim.units
+        if back != {"length": l, "time": t, "mass": m}:
+            fails.append(("units-readback", "sim.units reads back %r after setting %r" % (back, (l, t, m)), dict(set=(l, t, m), got=back)))
+        # a two-body system given in SI, expressed in these units with exact rationals
+        def to_units(L, Tt, Mm):
+            return dict(m1=float(m1_SI / Mm), m2=float(m2_SI / Mm), a=float(a_SI / L))
+        q0 = to_units(exactL[l], exactT[t], exactM[m])
+        v_SI = math.sqrt(float(Gq) * float(m1_SI + m2_SI) / float(a_SI))
+        sim.add(m=q0["m1"], r=float(Fr("7e8") / exactL[l]))
+        sim.add(m=q0["m2"], x=q0["a"], vy=float(Fr(v_SI) * exactT[t] / exactL[l]), r=float(Fr("7e7") / exactL[l]))
+        sim.particles[1].ax = float(Fr("-5.9e-3") * exactT[t] ** 2 / exactL[l])   # some acceleration to convert
+        P1 = sim.particles[1].orbit(primary=sim.particles[0]).P * Ts[t]
+        e = abs(P1 - Pw) / Pw
+        note("period_SI_invariance", e)
+        if not e <= 1e-12:
+            fails.append(("units-period", "orbital period in seconds depends on the unit system %r: %.17g vs %.17g" % ((l, t, m), P1, Pw), dict(units=(l, t, m), P=P1, want=Pw)))
+        before = [[getattr(p, f) for f in fields] for p in sim.particles]
+        for kk in range(ntarget):
+            l2, t2, m2 = triples[perm[(idx + kk * 577) % len(triples)]]
+            try:
+                sim.convert_particle_units(l2, t2, m2)
+            except Exception as ex:
+                fails.append(("units-convert", "convert_particle_units(%r) raised %r" % ((l2, t2, m2), ex), dict(frm=(l, t, m), to=(l2, t2, m2))))
+                break
+            c.count(("convert", l2, t2, m2))
+            mid = [[getattr(p, f) for f in fields] for p in sim.particles]
+            G2 = Gq * exactM[m2] * exactT[t2] ** 2 / exactL[l2] ** 3
+            if not abs(float((Fr(sim.G) - G2) / G2)) <= 4e-15 or sim.units != {"length": l2, "time": t2, "mass": m2}:
+                fails.append(("units-convert-G", "after convert_particle_units(%r) G / units are not those of the new system" % ((l2, t2, m2),), dict(frm=(l, t, m), to=(l2, t2, m2), G=sim.G, units=sim.units)))
+            worst_e = 0.0
+            for pi in range(2):
+                for fi, f in enumerate(fields):
+                    dl, dt_, dm = dims[f]
+                    fac = (exactL[l] / exactL[l2]) ** dl * (exactT[t] / exactT[t2]) ** dt_ * (exactM[m] / exactM[m2]) ** dm
+                    want = Fr(before[pi][fi]) * fac
+                    if want != 0:
+                        worst_e = max(worst_e, abs(float((Fr(mid[pi][fi]) - want) / want)))
+                    elif mid[pi][fi] != 0:
+                        worst_e = float("inf")
+            note("convert_vs_exact", worst_e)
+            if not worst_e <= 2e-15:
+                fails.append(("units-convert-values", "convert_particle_units %r -> %r differs from the exact conversion by %.3g" % ((l, t, m), (l2, t2, m2), worst_e),
+                              dict(frm=(l, t, m), to=(l2, t2, m2), before=before, after=mid)))
+            P2 = sim.particles[1].orbit(primary=sim.particles[0]).P * Ts[t2]
+            e = abs(P2 - Pw) / Pw
+            note("period_SI_invariance", e)
+            if not e <= 1e-12:
+                fails.append(("units-period", "orbital period in seconds changes under convert_particle_units %r -> %r" % ((l, t, m), (l2, t2, m2)), dict(frm=(l, t, m), to=(l2, t2, m2), P=P2, want=Pw)))
+            # a third system, reached directly and through the second: transitivity
+            if kk == 0:
+                l3, t3, m3 = triples[perm[(idx + 991) % len(triples)]]
+                s_dir = rebound.Simulation()
+                s_dir.units = (l, t, m)
+                for row in before:
+                    s_dir.add(m=row[0], x=row[1], y=row[2], z=row[3], r=row[4], vx=row[5], vy=row[6], vz=row[7])
+                    s_dir.particles[-1].ax, s_dir.particles[-1].ay, s_dir.particles[-1].az = row[8], row[9], row[10]
+                s_dir.convert_particle_units(l3, t3, m3)
+                s_via = sim.copy()
+                s_via.convert_particle_units(l3, t3, m3)
+                et = 0.0
+                for pa_, pb_ in zip(s_dir.particles, s_via.particles):
+                    for f in fields:
+                        x1, x2 = getattr(pa_, f), getattr(pb_, f)
+                        if x1 != x2:
+                            et = max(et, abs(x1 - x2) / max(abs(x1), abs(x2)))
+                note("convert_transitive", et)
+                if not et <= 4e-15 or abs(s_dir.G - s_via.G) > 4e-15 * abs(s_dir.G):
+                    fails.append(("units-transitive", "conversion %r -> %r -> %r differs from the direct conversion by %.3g" % ((l, t, m), (l2, t2, m2), (l3, t3, m3), et),
+                                  dict(a=(l, t, m), b=(l2, t2, m2), c=(l3, t3, m3))))
+            sim.convert_particle_units(l, t, m)
+            after = [[getattr(p, f) for f in fields] for p in sim.particles]
+            er = 0.0
+            for ra, rb in zip(before, after):
+                for x1, x2 in zip(ra, rb):
+                    if x1 != x2:
+                        er = max(er, abs(x1 - x2) / max(abs(x1), abs(x2)))
+            note("convert_there_and_back", er)
+            if not er <= 4e-15 or d2h(sim.G) != d2h(U.convert_G((l, t, m))):
+                fails.append(("units-roundtrip", "conversion %r -> %r and back does not return the particle data (%.3g)" % ((l, t, m), (l2, t2, m2), er),
+                              dict(frm=(l, t, m), via=(l2, t2, m2), before=before, after=after)))
+        if idx < 2:
+            c.sample({"units": (l, t, m), "G": sim.G, "period_s": P1})
+    # the setter must refuse to change units once particles exist
+    sim = rebound.Simulation(); sim.units = ("au", "yr", "msun"); sim.add(m=1)
+    try:
+        sim.units = ("m", "s", "kg")
+        fails.append(("units-setter-populated", "sim.units could be reassigned with particles present (no conversion is done)", {}))
+    except AttributeError:
+        pass
+    c.cov["units_worst_errors_measured"] = {k: float("%.3g" % v) for k, v in sorted(worst.items())}
+    seen = set()
+    for key, what, rep in fails:
+        k2 = key
+        if k2 in seen:
+            continue
+        seen.add(k2)
+        c.violation(key, what, rep)
+    c.cov["units_search_failures"] = len(fails)
+
+
 def run(c):
     d = build()
     rebound = use_scratch_rebound(d)
+    # ---- translator: rebound/units.py -> lean/RV/Gen/C20Units.lean (every run)
+    try:
+        txt, parsed, ref = extract_c20.generate(REPO)
+    except Exception as ex:
+        raise Infra("extract_c20 failed: %r" % (ex,))
+    changed = write_if_changed(os.path.join(LEAN, "RV", "Gen", "C20Units.lean"), txt)
+    c.cov["translator"] = {"regenerated": bool(changed), "parse_errors": parsed["errors"],
+                           "entries": {k: len(v) for k, v in parsed["tables"].items()}}
+    c.cov["rule"] = (
+        "units: exhaustive over all length x time x mass triples of the imported tables (setter in random order/case -> G vs exact rational, "
+        "read-back, an SI-specified two-body system expressed in the triple: period in seconds, convert_particle_units to another triple "
+        "(every triple is also a target), exact rational comparison of all 11 fields, transitivity through a third triple, and back); "
+        "rotations: random and special vectors / quaternions through every exported reb_vec3d_* / reb_rotation_* routine, from_to cases drawn "
+        "from 7 geometry classes (exactly antiparallel generic and axis-aligned, antiparallel to 1 ulp, nearly antiparallel, parallel, "
+        "orthogonal special pairs, obtuse, acute, random), angle-axis / orbit / to_new_axes / slerp incl. degenerate angles and axes; "
+        "frame: random simulations N=1..13 in 4 mass families incl. zero and leading zero masses, 0..4 variational configurations of order 1, 2 "
+        "(same or different first-order parents) and test-particle type with arbitrary variational data incl. mass variations; "
+        "a case is non-trivial when it exercises a distinct (routine, geometry class / N / configuration / unit) combination")
+    c.cov["trusted_base"] = ["Lean 4.33 kernel; Mathlib ring/field_simp/linear_combination/decide (kernel-checked)",
+                             "correspondence drv_c20 vs compiled rotations.c / tools.c and vs rebound.units on generated inputs (differential test)",
+                             "rv/extract_c20.py (Python ast) reads units.py as CPython does: checked bitwise against the imported module every run",
+                             "ref/C20_units_reference.json (committed, written from published constants)",
+                             "Lean Float.sqrt/sin/cos/acos = the libm the C code links (bitwise on this platform)",
+                             "ctypes Particle / Rotation / Vec3d layout (checked by C18)"]
+    c.assumptions += ["theorems are exact-arithmetic; IEEE rounding is measured by the search only (errors reported in *_worst_errors_measured)",
+                      "sqrt/sin/cos enter the theorems only through SqrtSpec (non-negative square root on non-negative arguments) and TrigSpec (sin^2+cos^2=1); both proved for the real functions",
+                      "isnormal(x) is modelled as x != 0 in exact arithmetic (0*(1/0)=0 in a field, NaN in IEEE: both 'not normal')",
+                      "COM theorems assume non-negative masses (the m>0 guard of reb_particle_com_of_pair is modelled and proved under that hypothesis)",
+                      "reb_rotation_to_orbital (documented by the authors as quadrant-unreliable) and the float display matrices are outside the statement",
+                      "move_to_hel leaves variational particles untouched (source comment): they remain derivatives of the unshifted coordinates; only move_to_com is proved to transform them as derivatives"]
+    ok = c.prove(["RV.Props.C20"])
     exe = lean_exe("drv_c20")
     rotations(c, rebound, exe)
+    frame(c, rebound, exe)
+    units(c, rebound, exe, parsed, ref)
+    if c.broken and not c.violations:
+        c.log("proof/correspondence broken: extra search budget")
+        c.rng = SplitMix(c.seed * 7919 + 20)
+        extra = Check.__new__(Check)
+        rotations(c, rebound, exe)
+        frame(c, rebound, exe)
 
 
 if __name__ == "__main__":
